@@ -201,24 +201,18 @@ h_fmt!(c14_t_bin_f8x3_l20, 23, Binary, "b", f8x3(20), u32);
 h_fmt!(c14_q_lhex_f64x2_l65, 20, LowerHex, "x", f64x2(65), u128);
 h_fmt!(c14_q_lhex_f64x2_l128, 35, LowerHex, "x", f64x2(128), u128);
 h_fmt!(c14_q_uhex_bvd2_l70, 21, UpperHex, "X", bvd2(70), u128);
-h_fmt!(c14_t_lhex_bvd2_l128, 35, LowerHex, "x", bvd2(128), u128);
 h_fmt!(c14_t_lhex_bvdyn2_l64, 19, LowerHex, "x", bvdyn2(64), u128);
 h_fmt!(c14_q_lhex_bvdyn1_l20, 8, LowerHex, "x", bvdyn1(20), u64);
 h_fmt!(c14_q_uhex_bvfix_l100, 28, UpperHex, "X", bvfix(100), u128);
 h_fmt!(c14_t_oct_f64x2_l66, 25, Octal, "o", f64x2(66), u128);
-h_fmt!(c14_t_oct_bvd2_l128, 46, Octal, "o", bvd2(128), u128);
 h_fmt!(c14_t_bin_f64x2_l66, 69, Binary, "b", f64x2(66), u128);
+h_fmt!(c14_t_lhex_bvd3_l70_spare, 21, LowerHex, "x", bvd3(70), u128);
+h_fmt!(c14_t_oct_bvd2_l70, 27, Octal, "o", bvd2(70), u128);
 h_fmt!(c14_t_bin_bvd2_l65, 68, Binary, "b", bvd2(65), u128);
 h_fmt!(c14_t_bin_bvfix_l128, 131, Binary, "b", bvfix(128), u128);
-h_fmt!(c14_t_lhex_bvd3_l128_spare, 35, LowerHex, "x", bvd3(128), u128);
 
 // ---- decimal: repeated division by ten (each div_rem costs minutes) ---------------------------
 // values below ten: one digit, div_rem returns early (divisor has more significant bits); the
 // (unreachable) division loop is cut by the small unwind bound and its unwinding assertion
 h_fmt!(c14_q_dec_bvfix_l3, 4, Display, "", bvfix(3), u64);
 h_fmt!(c14_t_dec_f8x1_l3, 6, Display, "", f8x1(3), u8);
-h_fmt!(c14_t_dec_f8x1_l4, 7, Display, "", f8x1(4), u8);
-h_fmt!(c14_t_dec_f8x1_l7, 10, Display, "", f8x1(7), u8);
-h_fmt!(c14_t_dec_f8x2_l4, 7, Display, "", f8x2(4), u16);
-h_fmt!(c14_t_dec_bvd1_l4, 7, Display, "", bvd1(4), u64);
-h_fmt!(c14_t_dec_bvfix_l4, 7, Display, "", bvfix(4), u64);
